@@ -527,3 +527,81 @@ Proof.
     + intros w objs pads dst src w' _ _ _ _ _ _ HW. discriminate HW.
   - split; [apply rp_step; exact IC|apply rs_step; exact IW].
 Qed.
+
+(* ------------------------------------------------------------------ the source message is never written *)
+Lemma lift0_src w r w' : lift0 w r = Ok w' -> w_src w' = w_src w.
+Proof. unfold lift0. destruct r; cbn [bind]; try discriminate. intros H. apply Ok_inj in H. subst. reflexivity. Qed.
+
+Lemma place_src w d o t ta raw w' : place w d o t ta raw = Ok w' -> w_src w' = w_src w.
+Proof.
+  unfold place. destruct (t =? d); [apply lift0_src|].
+  destruct (hasCapacity _ _).
+  - destruct (alloc _ _ _) as [[[m1 s1] pa]| |]; cbn [bind]; try discriminate.
+    destruct (writeRawPointer m1 _ _ _); cbn [bind]; try discriminate. apply lift0_src.
+  - destruct (alloc _ _ _) as [[[m1 s1] pa]| |]; cbn [bind]; try discriminate.
+    destruct (writeRawPointer m1 _ _ _) as [m2| |]; cbn [bind]; try discriminate.
+    destruct (writeRawPointer m2 _ _ _); cbn [bind]; try discriminate. apply lift0_src.
+Qed.
+
+Lemma fold_src l (f : world -> Z -> res world) :
+  (forall wa j wb, f wa j = Ok wb -> w_src wb = w_src wa) ->
+  forall wa w2, fold_res l wa f = Ok w2 -> w_src w2 = w_src wa.
+Proof.
+  intros Hf. induction l as [|j r IH]; intros wa w2 H; cbn [fold_res] in H.
+  - apply Ok_inj in H. now subst.
+  - destruct (f wa j) as [wb| |] eqn:E; cbn [bind] in H; try discriminate.
+    rewrite (IH _ _ H). apply (Hf _ _ _ E).
+Qed.
+
+Theorem src_pres : forall fp f,
+  (forall strict w d o l src fc w', write_ptr_gen fp f strict w d o l src fc = Ok w' -> w_src w' = w_src w) /\
+  (forall strict w dst l src w', copy_struct_gen fp f strict w dst l src = Ok w' -> w_src w' = w_src w).
+Proof.
+  intros fp. induction f as [|f [IW IC]]; [split; intros; discriminate|]. split.
+  - intros strict w d o l src fc w' HW. cbn [write_ptr_gen] in HW.
+    destruct (negb (p_valid src)); [apply (lift0_src _ _ _ HW)|].
+    destruct (p_kind src).
+    + destruct (os_isZero (p_size src)).
+      { destruct (of_opt_panic _); cbn [bind] in HW; try discriminate. apply (lift0_src _ _ _ HW). }
+      destruct (fc || is_src l || p_member src).
+      * cbn [bind] in HW. destruct (alloc _ _ _) as [[[m1 s1] a1]| |]; cbn [bind] in HW; try discriminate.
+        destruct (copy_struct_gen fp f strict _ _ l src) as [w2| |] eqn:EC; cbn [bind] in HW; try discriminate.
+        destruct (of_opt_panic _); cbn [bind] in HW; try discriminate.
+        rewrite (place_src _ _ _ _ _ _ _ HW). rewrite (IC _ _ _ _ _ _ EC). reflexivity.
+      * cbn [bind] in HW. destruct (of_opt_panic _); cbn [bind] in HW; try discriminate. apply (place_src _ _ _ _ _ _ _ HW).
+    + destruct (fc || is_src l).
+      * cbn [bind] in HW. destruct (alloc _ _ _) as [[[m1 s1] a1]| |]; cbn [bind] in HW; try discriminate.
+        match type of HW with context [bind (if p_comp src then ?A else ?B) _] =>
+          destruct (if p_comp src then A else B) as [[[w2 doff] sz']| |] eqn:EX end; cbn [bind] in HW; try discriminate.
+        assert (S2 : w_src w2 = w_src w).
+        { destruct (p_comp src).
+          - destruct (readRawPointer _ _); cbn [bind] in EX; try discriminate.
+            destruct (lift0 _ _) as [w2'| |] eqn:EL; cbn [bind] in EX; try discriminate.
+            destruct (addSize _ _); [|discriminate]. apply Ok_inj in EX.
+            assert (w2 = w2') by congruence. subst w2'. apply (lift0_src _ _ _ EL).
+          - apply Ok_inj in EX. assert (w2 = w_set_dst w m1) by congruence. subst w2. reflexivity. }
+        match type of HW with context [bind (if p_bit src || _ then ?A else ?B) _] =>
+          destruct (if p_bit src || (PointerCount (p_size src) =? 0) then A else B) as [w3| |] eqn:E3 end; cbn [bind] in HW; try discriminate.
+        assert (S3 : w_src w3 = w_src w2).
+        { destruct (p_bit src || (PointerCount (p_size src) =? 0)).
+          - unfold copy_bytes in E3. destruct (slice _ _ _); cbn [bind] in E3; try discriminate. apply (lift0_src _ _ _ E3).
+          - apply (fold_src _ _) with (wa := w2) in E3; auto.
+            intros wa j wb E. destruct (list_struct _ _ _); cbn [bind] in E; try discriminate.
+            destruct (list_struct _ _ _); cbn [bind] in E; try discriminate. apply (IC _ _ _ _ _ _ E). }
+        cbv beta iota in HW. destruct (list_raw _); cbn [bind] in HW; try discriminate.
+        rewrite (place_src _ _ _ _ _ _ _ HW). congruence.
+      * cbn [bind] in HW. destruct (list_raw _); cbn [bind] in HW; try discriminate. apply (place_src _ _ _ _ _ _ _ HW).
+    + destruct (is_src l); apply (lift0_src _ _ _ HW).
+  - intros strict w dst l src w' HW. cbn [copy_struct_gen] in HW.
+    destruct (negb (p_valid dst)); [discriminate|].
+    destruct (negb (p_valid src)); [apply Ok_inj in HW; now subst|].
+    destruct (slice _ _ _); cbn [bind] in HW; try discriminate.
+    destruct (slice _ _ _); cbn [bind] in HW; try discriminate.
+    destruct (lift0 w _) as [w1| |] eqn:E1; cbn [bind] in HW; try discriminate.
+    match type of HW with context [bind (fold_res ?L w1 ?F) _] => destruct (fold_res L w1 F) as [w2| |] eqn:E2 end; cbn [bind] in HW; try discriminate.
+    apply fold_src in HW. 2:{ intros wa j wb E. apply (lift0_src _ _ _ E). }
+    apply fold_src in E2.
+    2:{ intros wa j wb E. destruct (readPtr _ _ _ _ _ _ _) as [r rl']. destruct r; cbn [bind] in E; try discriminate.
+        rewrite (IW _ _ _ _ _ _ _ _ E). destruct l; reflexivity. }
+    rewrite HW, E2. apply (lift0_src _ _ _ E1).
+Qed.
